@@ -136,6 +136,33 @@ def run(run):
                 run.violation(f"quintant {q} of face {o} maps to segment {seg} (orientation {ori}) but that segment maps back to {back.get(seg)}", reqs[18 + (o * 5 + q) * 2], " ".join(a))
         if segs != set(range(5)):
             run.violation(f"the quintant->segment relabelling of face {o} is not a bijection", f"q2s * {o}", str(sorted(segs)))
+    # "preserves the curve orientation": the curve is continuous across the five segments of a face - the last cell of the
+    # segment with code n and the first cell of the segment with code n + 1 (ids 5*face + n, per-face rotation included)
+    # are neighbours (centres within 1.2 cell sizes; 0.986 on the reference tree).  A relabelling that is still a bijection
+    # but walks around the face against its layout breaks exactly this.
+    from .C01 import cell_size
+    creq, cmeta = [], []
+    for r in (2, 3, 5):
+        L = r - 1
+        for f in range(12):
+            for nn in range(4):
+                A = spec.encode(r, 5 * f + nn, tuple([3] * L)); B = spec.encode(r, 5 * f + nn + 1, tuple([0] * L))
+                creq += [f"cell_to_lonlat {A}", f"cell_to_lonlat {B}"]; cmeta.append((r, f, nn, A, B))
+    ci, cm = core.both(run, creq, "curve-continuity")
+    worst_gap = 0.0
+    for k, (r, f, nn, A, B) in enumerate(cmeta):
+        run.evaluations += 1
+        a, b = ci[2 * k].split(), ci[2 * k + 1].split()
+        if a[0] != "ok" or b[0] != "ok":
+            run.violation("cell_to_lonlat failed on a valid cell", creq[2 * k: 2 * k + 2], ci[2 * k] + " / " + ci[2 * k + 1])
+            continue
+        from .. import geo as _geo
+        d = _geo.ang(_geo.sphere_vec(fx(a[1]), fx(a[2])), _geo.sphere_vec(fx(b[1]), fx(b[2]))) / cell_size(r)
+        worst_gap = max(worst_gap, d)
+        if d > 1.2:
+            run.violation(f"the curve is not continuous from segment {nn} to segment {nn + 1} of face {f} at resolution {r}: the last cell {A:#x} and the first cell {B:#x} are {d:.2f} cell sizes apart (the relabelling does not preserve the curve orientation)",
+                          creq[2 * k: 2 * k + 2], ci[2 * k] + " / " + ci[2 * k + 1])
+    run.extra["worst_segment_to_segment_gap_cell_sizes"] = round(worst_gap, 4)
     # nearest face = argmax of the dot product with the 12 centres (ties within 1e-12 excluded)
     ties = 0
     for (t, p), a in zip(pts, impl[base:]):
@@ -149,7 +176,7 @@ def run(run):
             run.violation(f"the face chosen is not the nearest one by great-circle distance (nearest is {ds[0][1]}, margin {ds[0][0] - ds[1][0]:.3e})", f"find_nearest_origin {hx(t)} {hx(p)}", a)
         if ds[0][0] - ds[1][0] < 1e-6:
             run.nontrivial.add((t, p))
-    run.rule = ("frame read from the running library (66 pairwise dot products), base-cell centres and pole lookups, all 12 x 5 relabellings in both directions, and nearest-face selection "
+    run.rule = ("frame read from the running library (66 pairwise dot products), base-cell centres and pole lookups, all 12 x 5 relabellings in both directions, continuity of the curve across the segments of every face (r = 2, 3, 5), and nearest-face selection "
                 "against a direct 3-D dot-product argmax on uniform points (60%) and points within 1e-12..1e-7 of a seam between two neighbouring faces (40%); non-trivial = distinct points within 1e-6 of a seam that were decided")
     run.samples = [{"request": reqs[i], "impl": impl[i][:120], "model": model[i][:120]} for i in rng.sample(range(len(reqs)), 6)]
     run.extra["seam_ties_skipped"] = ties
